@@ -12,7 +12,7 @@ pub fn valid_pixel(rng: &mut Rng) -> u32 {
         1 | 2 => 255,
         _ => rng.below(256) as u32,
     };
-    let mut ch = |rng: &mut Rng| -> u32 {
+    let ch = |rng: &mut Rng| -> u32 {
         match rng.below(5) {
             0 => a,
             1 => 0,
